@@ -131,12 +131,12 @@ func CanonOutcome(o Outcome) string {
 
 // ErrClass maps an error to a small class: user errors keep their value.
 func ErrClass(err error) string {
-	if ve, ok := err.(gojq.ValueError); ok {
-		return "value " + Canon(ve.Value())
-	}
 	var he *gojq.HaltError
 	if errors.As(err, &he) {
 		return "halt " + Canon(he.Value())
+	}
+	if ve, ok := err.(gojq.ValueError); ok {
+		return "value " + Canon(ve.Value())
 	}
 	return "msg s" + Hex(err.Error())
 }
